@@ -10,6 +10,8 @@ from __future__ import annotations
 import hashlib
 import math
 import random
+
+import numpy as np
 from multiprocessing import Pool
 
 from . import common, scenes, tablecheck
@@ -149,12 +151,19 @@ def split_rows(rng):
     drift = rng.choice([0, 0, 2.0, -3.0, 5.0])
     noise = rng.choice([0, 5, 20, 40])
     integer = rng.random() < 0.5
+    # quantised instruments: one mode a single repeated value, the others on a coarse grid (many ties: a mixture
+    # component can come out unpopulated, which is what the empty-component penalty of ncomp_from_gmm is for)
+    quant = rng.choice([0, 0, 0, 50, 25, 100])
     rows = []
     for i in range(n):
         t = -900.0 + 900.0 / n * i
         hs = []
         for m in range(modes):
             if rng.random() < rng.choice([1.0, 0.8, 0.5]):
+                if quant:
+                    h = base + m * gap + (0 if m == 0 else quant * rng.randint(0, 7))
+                    hs.append(float(h))
+                    continue
                 h = base + m * gap + (drift * i if m == 0 else -drift * i) + (rng.uniform(-noise, noise) if noise else 0)
                 hs.append(float(round(h)) if integer else h)
         hs.sort()
@@ -361,12 +370,18 @@ def _work(args):
         prms = scenes.numpy_typed(prms, rr)          # parameter values as NumPy scalars
         meta['numpy_typed_prms'] = True
     meta['route'] = route
+    # distorted mixture answers (within the shape the theorems assume) on a share of the scenes that engage the mixture
+    fuzz = None
+    if family in ('split', 'synth', 'manyslices', 'drift') and rr.random() < (0.35 if family == 'split' else 0.15):
+        fuzz = f'{seed}:{family}:{k}'
+        meta['kernel_fuzz'] = True
     try:
-        obs = scenes.run_scene(rows, prms, index=index, route=route)
+        obs = scenes.run_scene(rows, prms, index=index, route=route, kernel_fuzz=fuzz)
     except Exception as e:
         return {'meta': meta, 'harness_error': f'{type(e).__name__}: {e}'}
     out = {'meta': meta, 'exc': obs['exc'], 'stage': obs['stage'], 'exc_msg': obs.get('exc_msg'),
-           'stats': dict(scenes.scene_stats(obs), **{'index_' + ikind: 1, 'route_' + route: 1, 'numpy_typed_prms': int(bool(meta.get('numpy_typed_prms')))}), 'req': None, 'missing': obs['trace'].missing,
+           'stats': dict(scenes.scene_stats(obs), **{'index_' + ikind: 1, 'route_' + route: 1, 'numpy_typed_prms': int(bool(meta.get('numpy_typed_prms'))),
+                                                       'mixture_answers_distorted': int(fuzz is not None)}), 'req': None, 'missing': obs['trace'].missing,
            'digest': hashlib.sha1(repr((rows, sorted(prms.items(), key=str))).encode()).hexdigest()[:16],
            'nrows': len(rows), 'prms': prms}
     if not obs['exc']:
@@ -376,6 +391,8 @@ def _work(args):
         out['stats']['merge_recomputed_bases'] = 0
         if tr.gmm:
             out['stats']['gmm_calls'] = len(tr.gmm)
+            if any(len(set(np.asarray(f['labels']).tolist())) < n_ for g in tr.gmm for n_, f in g.get('fits', {}).items() if 'labels' in f):
+                out['stats']['gmm_fit_with_unpopulated_component'] = 1
             if any(g.get('best') and g.get('ncomp') is not None and g['best']['out'] + 1 > g['ncomp'] for g in tr.gmm):
                 out['stats']['gmm_remerged'] = 1
         if obs['chunk'].n_groups is not None and obs['chunk'].n_slices is not None \
@@ -418,6 +435,13 @@ def run_pipeline(chk, prop, n_scenes, families=FAMILIES, crash_is_violation=Fals
                          'messages': res.get('msgs'), 'raised': res['exc']} if task[1] < 1 else None)
         if res['missing']:
             chk.mismatch('wrapper targets missing', str(res['missing']), replay)
+        if res['exc'] and res['meta'].get('kernel_fuzz'):
+            # distorted (but well-shaped) mixture answers: the model is total for every such answer, so an exception of
+            # the implementation is a disagreement with the model - not, by itself, a crash on valid input
+            chk.count('scene_raised_under_distorted_mixture_answers_' + res['exc'])
+            chk.mismatch('cascade model = implementation (the implementation raised under mixture answers of the assumed shape)',
+                         f"{res['exc']} at stage {res['stage']}: {res['exc_msg']}", replay)
+            continue
         if res['exc']:
             chk.count('scene_raised_' + res['exc'])
             if crash_is_violation and res['exc'] != 'AmpycloudError':
